@@ -13,6 +13,17 @@ def merge(merge_expr: exp.Expression) -> list[exp.Expression]:
     return [_create_merge_candidates(merge_expr), *_mutations(merge_expr), _counts(merge_expr)]
 
 
+def _source_columns(expressions: list[exp.Expression], source_id: exp.Identifier) -> set[str]:
+    """The columns qualified with the source's name or alias that appear inside the (non-column) expressions."""
+    return {
+        str(c)
+        for e in expressions
+        if not isinstance(e, exp.Column)
+        for c in e.find_all(exp.Column)
+        if (table := c.args.get("table")) and isinstance(table, exp.Identifier) and checks.equal(table, source_id)
+    }
+
+
 def _create_merge_candidates(merge_expr: exp.Merge) -> exp.Expression:
     """
     Given a merge statement, produce a temporary table that joins together the target and source tables.
@@ -70,6 +81,8 @@ def _create_merge_candidates(merge_expr: exp.Merge) -> exp.Expression:
             if isinstance(then, exp.Update):
                 case_when_clauses.append(f"WHEN {predicate} THEN {w_idx}")
                 values.update([str(c.expression) for c in then.expressions if isinstance(c.expression, exp.Column)])
+                # source columns used inside a SET expression, eg: SET qty = t1.qty + t2.qty
+                values.update(_source_columns([c.expression for c in then.expressions], source_id))
             elif isinstance(then, exp.Var) and then.name.upper() == "DELETE":
                 case_when_clauses.append(f"WHEN {predicate} THEN {w_idx}")
             else:
@@ -79,6 +92,8 @@ def _create_merge_candidates(merge_expr: exp.Merge) -> exp.Expression:
             assert isinstance(then, exp.Insert), f"Expected 'Insert', got {then}"
             insert_values = then.expression.expressions
             values.update([str(c) for c in insert_values if isinstance(c, exp.Column)])
+            # source columns used inside a VALUES expression, eg: VALUES (t2.id, t2.qty * 2)
+            values.update(_source_columns(insert_values, source_id))
             predicate = f"AND {condition}" if condition else ""
             case_when_clauses.append(f"WHEN {target_tbl}.rowid is NULL {predicate} THEN {w_idx}")
 
